@@ -6,6 +6,9 @@
 #include <halfLimits.h>
 #include <sstream>
 #include <climits>
+#include <iomanip>
+#include <mutex>
+#include <vector>
 
 using namespace orc;
 using IMATH_NAMESPACE::half;
@@ -481,6 +484,54 @@ VP_EXHAUSTIVE (text_roundtrip, 65536, 65536, "every finite half pattern through 
     c.nt (f != std::floor (f) || h == 0x8000);
 }
 
+// ---- text in other stream states: the printed form is still that of the float value and still reads back
+VP_EXHAUSTIVE (text_stream_states, 65536, 65536, "every finite half pattern through operator<< / operator>> on streams in 8 formatting states (precision 9 and 17, scientific 6 and 12, fixed 12 and 30, showpos+uppercase, width 14 with fill); the text must equal what the float value prints in the same state and must read back to the same half; non-trivial = value not an integer or negative zero")
+{
+    uint16_t h = (uint16_t) idx;
+    if ((h & 0x7c00) == 0x7c00)
+    {
+        c.bulk (0, 0);
+        return;
+    }
+    half x;
+    x.setBits (h);
+    float f = u2f (H2F[h]);
+    VP_NOTE (c, "half 0x" << std::hex << h << " in 8 stream states");
+    for (int st = 0; st < 8; ++st)
+    {
+        std::ostringstream os, of;
+        auto               prep = [&] (std::ostream& o) {
+            switch (st)
+            {
+                case 0: o << std::setprecision (9); break;
+                case 1: o << std::setprecision (17); break;
+                case 2: o << std::scientific << std::setprecision (6); break;
+                case 3: o << std::scientific << std::setprecision (12); break;
+                case 4: o << std::fixed << std::setprecision (12); break;
+                case 5: o << std::fixed << std::setprecision (30); break;
+                case 6: o << std::showpos << std::uppercase << std::setprecision (8); break;
+                default: o << std::setfill ('*') << std::setw (14) << std::setprecision (7); break;
+            }
+        };
+        prep (os);
+        prep (of);
+        os << x;
+        of << f;
+        std::string txt = os.str ();
+        VP_REQUIRE (c, of.str () == txt, "text-format-state", "stream state " << st << ": operator<< prints '" << txt << "' for half 0x" << std::hex << h << " but the float value prints '" << of.str () << "'");
+        VP_REQUIRE (c, os.precision () == of.precision () && os.flags () == of.flags () && os.width () == of.width (), "text-stream-state-changed", "stream state " << st << ": operator<< leaves precision/flags/width " << os.precision () << "/" << (long) os.flags () << "/" << os.width () << ", a float leaves " << of.precision () << "/" << (long) of.flags () << "/" << of.width ());
+        std::string in = txt;
+        if (st == 7) in.erase (0, in.find_first_not_of ('*'));
+        std::istringstream is (in);
+        half               y;
+        y.setBits (0x5555);
+        is >> y;
+        VP_REQUIRE (c, !is.fail (), "text-parse-failed-state", "stream state " << st << ": cannot parse '" << in << "' printed for 0x" << std::hex << h);
+        VP_REQUIRE (c, y.bits () == h, "text-roundtrip-state", "stream state " << st << ": half 0x" << std::hex << h << " -> '" << txt << "' -> 0x" << y.bits ());
+    }
+    c.nt (f != std::floor (f) || h == 0x8000);
+}
+
 // ---- halfFunction
 template <class T> static void hf_case (vp::Ctx& c, const char* tname)
 {
@@ -576,7 +627,7 @@ VP_RANDOM (half_function, 240, 2400, "generated (domainMin, domainMax, default, 
 }
 
 // ---- round(n)
-VP_EXHAUSTIVE (round_n, 65536, 65536, "every non-NaN half pattern x n in {0..12, 15, 16, 31, 32, 1000, UINT_MAX}; non-trivial = low bits actually dropped (result differs from input)")
+VP_EXHAUSTIVE (round_n, 65536, 65536, "every non-NaN half pattern x n in {0..12, 15, 16, 31, 32, 1000, UINT_MAX, 2^k + j for k = 4..31 and j = 0..9, 0x50007, 0xffff0003}; non-trivial = low bits actually dropped (result differs from input)")
 {
     uint16_t h = (uint16_t) idx;
     if (h_isnan (h))
@@ -584,7 +635,18 @@ VP_EXHAUSTIVE (round_n, 65536, 65536, "every non-NaN half pattern x n in {0..12,
         c.bulk (0, 0);
         return;
     }
-    static const unsigned NS[] = { 0, 1, 2, 3, 4, 5, 6, 7, 8, 9, 10, 11, 12, 15, 16, 31, 32, 1000, UINT_MAX };
+    static std::vector<unsigned> NS;
+    static std::once_flag        ns_once;
+    std::call_once (ns_once, [] {
+        for (unsigned k : { 0u, 1u, 2u, 3u, 4u, 5u, 6u, 7u, 8u, 9u, 10u, 11u, 12u, 15u, 16u, 31u, 32u, 1000u, UINT_MAX })
+            NS.push_back (k);
+        // n far above 10 whose low bits look like a small n (2^k + j): still "keep everything"
+        for (int k = 4; k < 32; ++k)
+            for (unsigned j = 0; j < 10; ++j)
+                NS.push_back ((1u << k) + j);
+        NS.push_back (0x50007u);
+        NS.push_back (0xffff0003u);
+    });
     half                  x;
     x.setBits (h);
     uint64_t nt = 0, n = 0;
